@@ -333,6 +333,46 @@ func (s *Session) Churn(nNodes, nSpare, steps int) {
 				members = append(members, j)
 			}
 			s.afterChange(members)
+		case x >= 72 && x < 75 && len(members) >= 2:
+			// two joiners in the same arc (pred(S), S): while S handles the request of the lower one (after its routing
+			// decision, before its membership lock) the higher one joins completely; the lower request must then be
+			// refused (it no longer follows S's predecessor directly) and change nothing
+			s.Repair(members, 3)
+			// the two ids straddle the hash of a key, so that the key lies in (low, high]
+			sorted := append([]uint64{}, members...)
+			sort.Slice(sorted, func(a, b int) bool { return sorted[a] < sorted[b] })
+			start := rng.Intn(len(KeyTokens))
+			for i := range KeyTokens {
+				h := HashOf(KeyTokens[(start+i)%len(KeyTokens)])
+				// succ = owner of h, pred = its predecessor
+				k := 0
+				for k < len(sorted) && sorted[k] < h {
+					k++
+				}
+				succ, pred := sorted[k%len(sorted)], sorted[(k+len(sorted)-1)%len(sorted)]
+				if (h+M-pred)%M < 3 || (succ+M-h)%M < 3 {
+					continue
+				}
+				low := (h + M - 1 - uint64(rng.Intn(2))) % M
+				high := (h + uint64(rng.Intn(2))) % M
+				fresh := true
+				for _, m := range ids {
+					fresh = fresh && m != low && m != high
+				}
+				if !fresh {
+					continue
+				}
+				ids = append(ids, low, high)
+				s.Do("new", U(low))
+				s.Do("new", U(high))
+				s.Do("reqjoinjoin", U(Pick(rng, members)), U(low), U(high), U(Pick(rng, members)))
+				if st := s.StateName(high); st == "Active" {
+					members = append(members, high)
+				}
+				s.Run.Count("two-joiners-same-arc")
+				s.afterChange(members)
+				break
+			}
 		case x < 82 && len(members) > 1:
 			s.Repair(members, 3)
 			l := Pick(rng, members)
